@@ -1,8 +1,9 @@
 import Driver.AsmFam
+import Driver.VmFam
 
 open Driver
 
-def families : List (String → Option (Parser String)) := [asmFamily]
+def families : List (String → Option (Parser String)) := [asmFamily, vmFamily]
 
 def step (line : String) : String :=
   match line.trimAscii.toString.splitOn " " with
